@@ -20,7 +20,7 @@ import (
 )
 
 func TestMain(m *testing.M) {
-	vh.Rule("rapid: a response from a grammar over all server-side package types and data types (result sets with narrow/wide formats, ORDERBY, rows incl. NULLs, PARAMFMT/PARAMS, RETURNSTATUS, DONEPROC/DONEINPROC, MSG, LOGINACK, CAPABILITY, DYNAMIC ack, CURINFO, ERROR, interleaved ENVCHANGE/EED, terminated by DONE(FINAL), a non-final DONE or nothing) x a cut set (none, single, every byte, few, random density; incl. empty bodies = header-only packets) x for the byte level a partition of the TCP byte stream into read() results (whole, per packet, 1..7-byte reads, random, header-splitting); run A = one packet/one read, run B = fragmented; exhaustive: every single cut (and every pair of cuts, thorough) of every response <= 160 bytes drawn, all 2^(n-1) cut sets of 5 streams of <= 15 bytes. Oracle: delivered package sequences of A and B are reflect.DeepEqual (same build), A equals the delivery model field by field, no error on the channel or connection error queue. Non-trivial: a cut falls strictly inside a package or a read splits a packet header; distinct by (response, cuts, reads)")
+	vh.Rule("rapid: a response from a grammar over all server-side package types and data types (result sets with narrow/wide formats, ORDERBY, rows incl. NULLs, PARAMFMT/PARAMS, RETURNSTATUS, DONEPROC/DONEINPROC, MSG, LOGINACK, CAPABILITY, DYNAMIC ack, CURINFO, ERROR, interleaved ENVCHANGE/EED, terminated by DONE(FINAL), a non-final DONE or nothing) x a cut set (none, single, every byte, few, random density; incl. empty bodies = header-only packets) x for the byte level a partition of the TCP byte stream into read() results (whole, per packet, 1..7-byte reads, random, header-splitting; optionally io.EOF reported together with the last bytes), extra status bits (ATTNACK, EVENT) next to EOM in the packet headers, the client's own request completing only after the first response packets have arrived; run A = one packet/one read, run B = fragmented; exhaustive: every single cut (and every pair of cuts, thorough) of every response <= 160 bytes drawn, all 2^(n-1) cut sets of 5 streams of <= 15 bytes. Oracle: delivered package sequences of A and B are reflect.DeepEqual (same build), A equals the delivery model field by field, no error on the channel or connection error queue. Non-trivial: a cut falls strictly inside a package or a read splits a packet header; distinct by (response, cuts, reads)")
 	vh.Assume("server packets carry type RESPONSE on channel 0 with EOM on the last packet; non-informational EED only between statements (the library resolves a row's format through the last delivered package); a DONE-family package with status 0 only as the last delivered package; responses are kept short (strings <= 40 bytes) so that cut sets can be enumerated")
 	vh.Main(m, "C02")
 }
@@ -30,6 +30,14 @@ type c02Case struct {
 	Cuts  []int  `json:"cuts"`
 	Byte  bool   `json:"byte_level"`
 	Reads []int  `json:"reads,omitempty"` // cut offsets in the TCP byte stream (byte level)
+	// Extra status bits (ATTNACK 0x02, EVENT 0x08) OR-ed into the packet headers, cycled
+	// over the packets: a server may set them next to EOM
+	Extra []int `json:"extra_status_bits,omitempty"`
+	// EOFWithData: (byte level) the transport reports io.EOF together with the last bytes
+	EOFWithData bool `json:"eof_with_last_read,omitempty"`
+	// SendAt > 0: (packet level) the client's request completes (SendPackage returns) only
+	// when SendAt packets of the response have already arrived - a fast server
+	SendAt int `json:"request_completes_after_packets,omitempty"`
 }
 
 type delivered struct {
@@ -59,7 +67,7 @@ func toLibPacket(p rc.Packet) *tds.Packet {
 }
 
 // runPackets feeds packets through Channel.WritePacket (deterministic, single goroutine).
-func runPackets(packets []rc.Packet) (d delivered, f *vh.Failure) {
+func runPackets(packets []rc.Packet, sendAt ...int) (d delivered, f *vh.Failure) {
 	ctx, cancel := context.WithCancel(context.Background())
 	defer cancel()
 	conn, _, err := tds.VerifNewConn(ctx, peer.NewPipe(), &tds.Info{ChannelPackageQueueSize: 4096}, false)
@@ -70,7 +78,12 @@ func runPackets(packets []rc.Packet) (d delivered, f *vh.Failure) {
 	if err != nil {
 		vh.HarnessBug("NewChannel: %v", err)
 	}
-	for _, p := range packets {
+	for i, p := range packets {
+		if len(sendAt) > 0 && sendAt[0] > 0 && (i == sendAt[0] || (i == len(packets)-1 && sendAt[0] >= len(packets))) {
+			if err := ch.SendPackage(ctx, &tds.LanguagePackage{Cmd: "select 1"}); err != nil {
+				d.errs = append(d.errs, "send: "+err.Error())
+			}
+		}
 		ch.WritePacket(toLibPacket(p))
 		drain(ctx, conn, ch, &d)
 	}
@@ -81,7 +94,7 @@ func runPackets(packets []rc.Packet) (d delivered, f *vh.Failure) {
 }
 
 // runBytes feeds the TCP byte stream through the real reader goroutine.
-func runBytes(stream []byte, reads []int) (d delivered, f *vh.Failure) {
+func runBytes(stream []byte, reads []int, eofWithData bool) (d delivered, f *vh.Failure) {
 	ctx, cancel := context.WithCancel(context.Background())
 	pipe := peer.NewPipe()
 	conn, done, err := tds.VerifNewConn(ctx, pipe, &tds.Info{ChannelPackageQueueSize: 100000, PacketReadTimeout: 5}, true)
@@ -103,8 +116,34 @@ func runBytes(stream []byte, reads []int) (d delivered, f *vh.Failure) {
 	if err != nil {
 		vh.HarnessBug("NewChannel: %v", err)
 	}
+	if eofWithData {
+		pipe.EOFWithLastBytes(len(stream))
+	}
 	pipe.FeedPartition(stream, reads)
-	if !pipe.WaitDrained(20 * time.Second) {
+	if eofWithData {
+		// the reader either ends after the last packet or (if the EOF came with a header read,
+		// where it is not an error yet) starts reporting the end of the transport; either way
+		// everything has been delivered by then
+		deadline := time.Now().Add(20 * time.Second)
+		for ended := false; !ended; {
+			select {
+			case <-done:
+				ended = true
+			default:
+				if conn.VerifConnErrLen() > 0 {
+					ended = true
+				} else if time.Now().After(deadline) {
+					return d, vh.Failf("C02/reader-stuck", "reader neither ended nor reported the end of the transport within 20 s after EOF arrived with the last bytes")
+				} else {
+					time.Sleep(100 * time.Microsecond)
+				}
+			}
+		}
+		drain(ctx, conn, ch, &d)
+		// errors reported after the end of the transport are not part of the response
+		d.errs = nil
+		return d, nil
+	} else if !pipe.WaitDrained(20 * time.Second) {
 		_, _, given, _ := pipe.Stats()
 		return d, vh.Failf("C02/reader-stuck", "reader did not come back for more input within 20 s (%d of %d bytes taken)", given, len(stream))
 	}
@@ -162,6 +201,11 @@ func runCase(c c02Case) (f *vh.Failure) {
 	}
 	// run B: fragmented
 	packets := rc.Packetise(stream, c.Cuts, rc.BufResponse, 0)
+	for i := range packets {
+		if len(c.Extra) > 0 {
+			packets[i].Status |= byte(c.Extra[i%len(c.Extra)])
+		}
+	}
 	var B delivered
 	empty := false
 	for _, p := range packets {
@@ -184,9 +228,9 @@ func runCase(c c02Case) (f *vh.Failure) {
 				}
 			}
 		}
-		B, f = runBytes(tcp, c.Reads)
+		B, f = runBytes(tcp, c.Reads, c.EOFWithData)
 	} else {
-		B, f = runPackets(packets)
+		B, f = runPackets(packets, c.SendAt)
 	}
 	if f != nil {
 		return f
@@ -229,6 +273,15 @@ func runCase(c c02Case) (f *vh.Failure) {
 	}
 	if splitsHeader {
 		vh.Label("read-splits-header")
+	}
+	if len(c.Extra) > 0 {
+		vh.Label("extra-status-bits")
+	}
+	if c.EOFWithData {
+		vh.Label("eof-with-last-read")
+	}
+	if c.SendAt > 0 {
+		vh.Label("request-completes-while-response-arrives")
 	}
 	if c.Byte {
 		vh.Label("level:byte")
@@ -282,6 +335,13 @@ func genReads(rt *rapid.T, packets []rc.Packet) []int {
 	return out
 }
 
+func genExtra(rt *rapid.T) []int {
+	if rapid.IntRange(0, 2).Draw(rt, "extrabits") != 0 {
+		return nil
+	}
+	return rapid.SliceOfN(rapid.SampledFrom([]int{0, 0x02, 0x08, 0x0a}), 1, 4).Draw(rt, "extra")
+}
+
 func genResponse(rt *rapid.T) []rc.P {
 	return respgen.Gen(rt, respgen.Opts{MaxStatements: 3, MaxEED: 3, MaxEnv: 2, PackSizes: false})
 }
@@ -293,7 +353,10 @@ func TestPacketLevel(t *testing.T) {
 		if err != nil {
 			vh.HarnessBug("encode: %v", err)
 		}
-		c := c02Case{Pkgs: ps, Cuts: respgen.Cuts(rt, len(stream), true)}
+		c := c02Case{Pkgs: ps, Cuts: respgen.Cuts(rt, len(stream), true), Extra: genExtra(rt)}
+		if rapid.IntRange(0, 3).Draw(rt, "sendlate") == 0 {
+			c.SendAt = rapid.IntRange(1, 4).Draw(rt, "sendat")
+		}
 		if len(stream) < 60 {
 			vh.Sample("packet-level", c)
 		}
@@ -309,7 +372,7 @@ func TestByteLevel(t *testing.T) {
 		if err != nil {
 			vh.HarnessBug("encode: %v", err)
 		}
-		c := c02Case{Pkgs: ps, Cuts: respgen.Cuts(rt, len(stream), true), Byte: true}
+		c := c02Case{Pkgs: ps, Cuts: respgen.Cuts(rt, len(stream), true), Byte: true, Extra: genExtra(rt), EOFWithData: rapid.IntRange(0, 4).Draw(rt, "eofwithdata") == 0}
 		c.Reads = genReads(rt, rc.Packetise(stream, c.Cuts, rc.BufResponse, 0))
 		if len(stream) < 60 {
 			vh.Sample("byte-level", c)
